@@ -1,3 +1,3 @@
 From Coq Require Import Extraction ExtrOcamlBasic.
 From BV Require Import lib.ExtractBase lib.Ints lib.ChainParams gen.Params_gen model.Pow model.HeadersSync.
-Extraction "model.ml" extract_base process_next_headers permitted_main block_proof hs_init max_commitments_of.
+Extraction "model.ml" extract_base process_next_headers permitted_main block_proof hs_init max_commitments_of holds_commitments.
